@@ -37,8 +37,8 @@ struct Algebra {
   struct Model {
     int held[MAXG];    // node id held by guard i, 0 = empty
     int mark[MAXG];
-    int cellnode[2];   // node id published in cell c
-    bool retired[64];
+    int cellnode[3];   // node id published in cell c (cell 2, if used, holds a null pointer with mark 1: node id 0)
+    bool retired[128];
     long clock;        // number of retirements so far: hazard eras advance their era clock exactly once per retirement
     long era[MAXG];    // value of `clock` when guard i obtained its protection (guards with different eras cannot share a slot)
     int protecting() const {
@@ -56,8 +56,14 @@ struct Algebra {
     const long mask = opt("ops", 0x3ff);
     const int gens = (int)opt("gens", 1);
     cell_set(NEXTID, 0);
-    CP* cells = new CP[2];
-    Node* nodes[64] = {nullptr};
+    // --opt nullcell=1: a third cell holds (nullptr, mark 1) - the snapshot a traversal takes of the next pointer of a
+    // logically deleted last node.  A guard holding it protects nothing but is not "empty" in the sense of operator bool
+    // of its marked_ptr (seed C15d: constructor and destructor disagreed on which of the two decides)
+    const int NC = opt("nullcell", 0) ? 3 : 2;
+    auto cmark = [](int c) { return c == 0 ? 0 : 1; };
+    CP* cells = new CP[3];
+    cells[2].store(MP(nullptr, 1), std::memory_order_relaxed);
+    Node* nodes[128] = {nullptr};
     Model md{};
     for (int c = 0; c < 2; c++) {
       Node* n = make();
@@ -77,6 +83,7 @@ struct Algebra {
             int id = md.held[i];
             if (id == 0) {
               if (x.get() != nullptr) fail("ALGEBRA", "after %s: guard %d should be empty but holds a pointer", after, i);
+              if ((int)x.mark() != md.mark[i]) fail("ALGEBRA", "after %s: guard %d holds a null pointer with mark %d, expected mark %d", after, i, (int)x.mark(), md.mark[i]);
               continue;
             }
             if (x.get() != nodes[id]) fail("ALGEBRA", "after %s: guard %d does not refer to node %d", after, i, id);
@@ -125,7 +132,11 @@ struct Algebra {
         };
         // after a refused acquire the guard may keep what it had (and then still protects it) or be empty
         auto after_refusal = [&](int i) {
-          if (g[i]->get() == nullptr) md.held[i] = 0, md.mark[i] = 0;
+          if (g[i]->get() == nullptr) {
+            // (a guard that held a marked null pointer may keep it: then the mark stays what it was)
+            if (!(md.held[i] == 0 && (int)g[i]->mark() == md.mark[i])) md.mark[i] = 0;
+            md.held[i] = 0;
+          }
         };
         for (int i = 0; i < fill && i < G; i++) {
           g[i]->acquire(cells[0], std::memory_order_acquire);
@@ -169,17 +180,17 @@ struct Algebra {
             j = choose(G);
             if (j <= i) prune();
           }
-          if (op == G_ACQUIRE || op == G_AIE_MATCH || op == G_AIE_MISMATCH || op == G_FROM_PTR) c = choose(2);
+          if (op == G_ACQUIRE || op == G_AIE_MATCH || op == G_AIE_MISMATCH || op == G_FROM_PTR) c = choose(NC);
           op_begin(op, i, op == G_COPY_ASSIGN || op == G_MOVE_ASSIGN || op == G_SWAP ? j : c);
           const char* name = kOps[op];
           switch (op) {
             case G_ACQUIRE: {
               int target = md.cellnode[c];
-              int newp = md.protecting() + (md.held[i] == 0 ? 1 : 0);
-              bool threw = guarded(name, expect(newp, i), [&] { g[i]->acquire(cells[c], std::memory_order_acquire); },
+              int newp = md.protecting() + (md.held[i] == 0 && target != 0 ? 1 : 0) - (md.held[i] != 0 && target == 0 ? 1 : 0);
+              bool threw = guarded(name, target == 0 ? -1 : expect(newp, i), [&] { g[i]->acquire(cells[c], std::memory_order_acquire); },
                                    [&] {
                                      md.held[i] = target;
-                                     md.mark[i] = c;
+                                     md.mark[i] = cmark(c);
                                      md.era[i] = md.clock;
                                    });
               if (threw) after_refusal(i);
@@ -187,13 +198,13 @@ struct Algebra {
             }
             case G_AIE_MATCH: {
               int target = md.cellnode[c];
-              int newp = md.protecting() + (md.held[i] == 0 ? 1 : 0);
+              int newp = md.protecting() + (md.held[i] == 0 && target != 0 ? 1 : 0) - (md.held[i] != 0 && target == 0 ? 1 : 0);
               bool ok = false;
-              if (guarded(name, expect(newp, i), [&] { ok = g[i]->acquire_if_equal(cells[c], MP(nodes[target], c), std::memory_order_acquire); },
+              if (guarded(name, target == 0 ? -1 : expect(newp, i), [&] { ok = g[i]->acquire_if_equal(cells[c], MP(nodes[target], cmark(c)), std::memory_order_acquire); },
                           [&] {
                             if (!ok) fail("ALGEBRA", "acquire_if_equal returned false although the cell holds the expected value");
                             md.held[i] = target;
-                            md.mark[i] = c;
+                            md.mark[i] = cmark(c);
                             md.era[i] = md.clock;
                           }))
                 after_refusal(i);
@@ -202,7 +213,7 @@ struct Algebra {
             case G_AIE_MISMATCH: {
               bool ok = true;
               // expected value differs in the mark only / in the pointer
-              MP expected = choose(2) ? MP(nodes[md.cellnode[c]], 1 - c) : MP(nodes[md.cellnode[1 - c]], c);
+              MP expected = choose(2) ? MP(nodes[md.cellnode[c]], 1 - cmark(c)) : MP(nodes[md.cellnode[c == 0 ? 1 : 0]], cmark(c));
               guarded(name, -1 + 0 * expect(0), [&] { ok = g[i]->acquire_if_equal(cells[c], expected, std::memory_order_acquire); },
                       [&] {
                         if (ok) fail("ALGEBRA", "acquire_if_equal returned true although the cell holds a different value");
@@ -278,16 +289,25 @@ struct Algebra {
             case G_FROM_PTR: {
               int target = md.cellnode[c];
               int newp = md.protecting() + (md.held[i] == 0 ? 1 : 0) + 0;
+              if (target == 0) { // a guard constructed from (nullptr, mark) needs no slot; copies of it neither
+                GP tmp{MP(nullptr, 1)};
+                GP cp(tmp);
+                if (cp.get() != nullptr || cp.mark() != 1 || tmp.mark() != 1) fail("ALGEBRA", "copy of a guard holding a marked null pointer differs from its source");
+                *g[i] = std::move(tmp);
+                md.held[i] = 0;
+                md.mark[i] = 1;
+                break;
+              }
               // construct a fresh guard from a raw marked pointer (legal: the node is published and cannot go away
               // while this single thread is the only one that retires), then move it into guard i
               guarded(name, md.held[i] == 0 ? expect(newp) : expect(md.protecting() + 1),
                       [&] {
-                        GP tmp{MP(nodes[target], c)};
+                        GP tmp{MP(nodes[target], cmark(c))};
                         *g[i] = std::move(tmp);
                       },
                       [&] {
                         md.held[i] = target;
-                        md.mark[i] = c;
+                        md.mark[i] = cmark(c);
                         md.era[i] = md.clock;
                       });
               break;
@@ -311,6 +331,22 @@ struct Algebra {
               md.cellnode[cc] = n->id;
               t.reclaim();
               md.retired[old] = true;
+              md.clock++;
+            } catch (const Exc&) {
+            }
+          }
+          // epoch based schemes reclaim only after the epoch has advanced twice: a few more critical regions and retirements
+          // (a thread whose guards still hold nodes stays in its critical region and blocks the advance - unless the
+          // bookkeeping of nested critical regions has been corrupted)
+          for (int r = 0; r < (int)opt("stormflush", 6); r++) {
+            try {
+              typename R::region_guard rg;
+              Node* d = make();
+              const int did = d->id;
+              nodes[did] = d;
+              GP t{MP(d, 0)};
+              t.reclaim();
+              md.retired[did] = true;
               md.clock++;
             } catch (const Exc&) {
             }
@@ -461,6 +497,100 @@ void snapshot_test() {
   }
   delete cell;
 }
+// ---- C18 / C17: control block reuse with many guards.  Generation after generation a fresh thread adopts the control block of
+// its predecessor, holds n guards on n distinct nodes at the same time (dynamic strategies: more than the block has slots,
+// so additional blocks are allocated and - in later generations - re-initialised), the nodes are unlinked and retired
+// (threshold 0: every retirement scans), and the guards are released one by one in an enumerated order, with a scan after
+// every release: every node a remaining guard refers to must be alive, whatever slots the earlier generations used and in
+// whatever order they released them.  Static strategies: n <= K must work in every generation, K+1 must be refused.
+template <class R, int K, class Exc>
+void reuse_test() {
+  set_op_names(kOps, 14);
+  using Node = GNode<R>;
+  using CP = typename R::template concurrent_ptr<Node, 1>;
+  using MP = typename CP::marked_ptr;
+  using GP = typename CP::guard_ptr;
+  const int gens = (int)opt("gens", 2), maxn = (int)opt("maxn", K > 0 ? K : 6);
+  constexpr int NCELL = 12;
+  cell_set(NEXTID, 0);
+  CP* cells = new CP[NCELL];
+  for (int c = 0; c < NCELL; c++) cells[c].store(MP(new Node((int)cell_add(NEXTID, 1)), 0), std::memory_order_relaxed);
+  static int n_of[4], order_of[4];
+  for (int g = 0; g < gens; g++) {
+    n_of[g] = 1 + choose(maxn);
+    order_of[g] = choose(3); // release order: 0 acquisition order, 1 reverse, 2 even positions first
+  }
+  mark_nontrivial();
+  for (int gen = 0; gen < gens; gen++) {
+    spawn([=] {
+      const int n = n_of[gen];
+      op_begin(G_HOLD_K, n, order_of[gen]);
+      std::optional<GP> h[NCELL];
+      int ids[NCELL];
+      for (int i = 0; i < n; i++) {
+        h[i].emplace();
+        try {
+          h[i]->acquire(cells[i], std::memory_order_acquire);
+        } catch (const Exc&) {
+          fail("SLOTS", "generation %d: guard %d of %d could not be acquired (K = %d)", gen, i + 1, n, K);
+        }
+        ids[i] = (*h[i])->id;
+      }
+      if (K > 0 && n == K) { // one more protecting guard must be refused, and the refusal must leave the others intact
+        bool threw = false;
+        try {
+          GP extra;
+          extra.acquire(cells[n], std::memory_order_acquire);
+        } catch (const Exc&) {
+          threw = true;
+        }
+        if (!threw && std::is_same_v<Exc, xenium::reclamation::bad_hazard_pointer_alloc>) fail("SLOTS", "generation %d: guard %d was granted although K = %d", gen, n + 1, K);
+      }
+      auto scan_and_check = [&](const char* when, const bool* released) {
+        { // a retirement (of a fresh dummy) makes this thread scan
+          GP t{MP(new Node((int)cell_add(NEXTID, 1)), 0)};
+          t.reclaim();
+        }
+        for (int i = 0; i < n; i++) {
+          if (released[i]) continue;
+          if (cell_get(ALIVE + ids[i]) != 1 || cell_get(DTOR + ids[i]) != 0) fail("GUARD", "generation %d, %s: node %d held by guard %d of %d was destroyed", gen, when, ids[i], i + 1, n);
+          if ((*h[i])->id != ids[i]) fail("GUARD", "generation %d, %s: node %d held by guard %d was overwritten", gen, when, ids[i], i + 1);
+        }
+      };
+      bool released[NCELL] = {};
+      // unlink and retire all n nodes (through temporary guards where a slot is left, else through a released guard later)
+      for (int i = 0; i < n; i++) {
+        Node* fresh = new Node((int)cell_add(NEXTID, 1));
+        cells[i].store(MP(fresh, 0), std::memory_order_release);
+      }
+      int pos[NCELL], np = 0;
+      if (order_of[gen] == 0)
+        for (int i = 0; i < n; i++) pos[np++] = i;
+      else if (order_of[gen] == 1)
+        for (int i = n - 1; i >= 0; i--) pos[np++] = i;
+      else {
+        for (int i = 0; i < n; i += 2) pos[np++] = i;
+        for (int i = 1; i < n; i += 2) pos[np++] = i;
+      }
+      for (int k = 0; k < np; k++) {
+        int i = pos[k];
+        h[i]->reclaim(); // the guard's own node is unlinked: retire it through this guard (releases the slot)
+        released[i] = true;
+        scan_and_check("after a release", released);
+      }
+      op_end();
+    });
+    join_all();
+  }
+  for (int c = 0; c < NCELL; c++) {
+    GP g;
+    g.acquire(cells[c], std::memory_order_acquire);
+    cells[c].store(MP(), std::memory_order_release);
+    g.reclaim();
+  }
+  delete[] cells;
+}
+
 namespace xr = xenium::reclamation;
 struct NoExc {};
 #define REGS(name, R, K, E) XMC_TEST_FN("snap_" name, (&snapshot_test<R, K, E>), "acquire snapshot " name)
@@ -496,6 +626,15 @@ REGHE(1);
 REGHE(2);
 REGHE(3);
 REGHE(5);
+#define REGR(name, R, K, E) XMC_TEST_FN("reuse_" name, (&reuse_test<R, K, E>), "control block reuse with many guards, " name)
+REGR("hpd_k1", rec::HPd<1>, 0, NoExc);
+REGR("hpd_k2", rec::HPd<2>, 0, NoExc);
+REGR("hed_k1", rec::HEd<1>, 0, NoExc);
+REGR("hed_k2", rec::HEd<2>, 0, NoExc);
+REGR("hp_k3", rec::HPs<3>, 3, xr::bad_hazard_pointer_alloc);
+REGR("he_k3", rec::HEs<3>, 3, xr::bad_hazard_era_alloc);
+REGR("ebr", rec::EBR, 0, NoExc);
+REGR("lfrc", rec::LFRC, 0, NoExc);
 XMC_TEST_FN("slots_hpd_k1", (&Algebra<rec::HPd<1>, 1000, SLOTS_NONE, xr::bad_hazard_pointer_alloc>::run), "dynamic hazard pointers never throw");
 XMC_TEST_FN("slots_hed_k1", (&Algebra<rec::HEd<1>, 1000, SLOTS_NONE, xr::bad_hazard_era_alloc>::run), "dynamic hazard eras never throw");
 } // namespace
